@@ -234,7 +234,7 @@ func init() {
 	for _, k := range []string{"Int32", "Int64", "Uint32", "Uint64", "Uintptr"} {
 		k := k
 		reg("sync/atomic.Load"+k, func(fr *frame, a []value) value {
-			fr.i.run.sched.atomicPoint(fr, a[0])
+			fr.i.run.sched.atomicLoadPoint(fr, a[0])
 			return *argPtr(a[0])
 		})
 		reg("sync/atomic.Store"+k, func(fr *frame, a []value) value {
@@ -268,7 +268,7 @@ func init() {
 		})
 	}
 	reg("sync/atomic.LoadPointer", func(fr *frame, a []value) value {
-		fr.i.run.sched.atomicPoint(fr, a[0])
+		fr.i.run.sched.atomicLoadPoint(fr, a[0])
 		return *argPtr(a[0])
 	})
 	reg("sync/atomic.StorePointer", func(fr *frame, a []value) value {
@@ -295,7 +295,7 @@ func init() {
 	// atomic.Value: the stored interface lives in a side table
 	reg("(*sync/atomic.Value).Load", func(fr *frame, a []value) value {
 		s := fr.i.run.sched
-		s.atomicPoint(fr, a[0])
+		s.atomicLoadPoint(fr, a[0])
 		if v, ok := s.objs[argPtr(a[0])].(iface); ok {
 			return v
 		}
@@ -679,6 +679,12 @@ func concreteStr(v value) string {
 func (s *Sched) atomicPoint(fr *frame, addr value) {
 	if len(s.gs) > 1 {
 		s.yield(fr.g, &pendingOp{kind: opYield, obj: addr, desc: "atomic"})
+	}
+}
+
+func (s *Sched) atomicLoadPoint(fr *frame, addr value) {
+	if len(s.gs) > 1 {
+		s.yield(fr.g, &pendingOp{kind: opYield, obj: addr, desc: "atomic load", readOnly: true})
 	}
 }
 
